@@ -3,12 +3,12 @@
    [T1] (specification level): all proved, for all values.
    NOTE: the relation of C18_canon_unique is value_eqs (no list upgrade), not Equal's value_eq:
    a primitive list and the equivalent struct list are value_eq but have different canonical forms.
-   [T2] (canon_m_correct_statement: the Go-faithful model computes canon of the denoted value) is
-   stated in full and proved in stages (null struct; canonicalStructSize for every struct; end to
-   end for all-default structs); the heap-level induction is open and covered by the run. *)
+   [T2] (the Go-faithful model computes canon of the denoted value) is proved by a heap-level
+   induction for every value: C18_canon_m_correct, its three consequences, and the capability
+   case (C18_canon_m_cap_error). *)
 From CV Require Import Value.ValueEq Value.CanonSpec Value.CanonProofs Value.CanonProofs2 Value.CanonProofs3
-                       Value.EqualM Value.CanonM Value.EqualProofs Value.CanonMProofs Value.CanonMStruct Value.Den.
-From CV Require Import Core.ReaderFacts Core.SafetyProofs.
+                       Value.EqualM Value.CanonM Value.EqualProofs Value.CanonMProofs Value.CanonMStruct Value.CanonMWords Value.CanonMData Value.CanonMHeap Value.CanonMLoop Value.CanonMInd Value.CanonMTop Value.CanonMListC Value.CanonMBlocks Value.Den.
+From CV Require Import Core.ReaderFacts Core.SafetyProofs Core.ArithFacts.
 Open Scope Z_scope.
 
 (* layout / version independence: values equal at the schema level (trailing default fields,
@@ -96,28 +96,170 @@ Theorem C18_canon_m_default_struct_partial : forall c fx fuel m rl s v,
 Proof. exact canon_m_default_struct_partial. Qed.
 Print Assumptions C18_canon_m_default_struct_partial.
 
-(* consequences of the full [T2] statement together with the proved [T1] theorems *)
-Theorem C18_canon_m_layout_independent_if : canon_m_correct_statement ->
-  forall fuel c fx m1 rl1 s1 v1 m2 rl2 s2 v2 bs1 bs2 r1 r2,
-    all_cfixed fx -> cfg_strict c = true -> msg_ok m1 -> msg_ok m2 -> wf_ptr m1 s1 -> wf_ptr m2 s2 ->
-    (p_valid s1 = true -> p_kind s1 = KStruct /\ DataSize (p_size s1) mod 8 = 0) ->
-    (p_valid s2 = true -> p_kind s2 = KStruct /\ DataSize (p_size s2) mod 8 = 0) ->
-    den true m1 0 [] s1 v1 -> den true m2 0 [] s2 v2 ->
-    nocap v1 = true -> value_eqs v1 v2 = true ->
-    canonicalize c fx fuel m1 rl1 s1 = (KOk bs1, r1) -> canonicalize c fx fuel m2 rl2 s2 = (KOk bs2, r2) ->
-    bs1 = bs2.
-Proof. exact canon_m_layout_independent_if. Qed.
-Print Assumptions C18_canon_m_layout_independent_if.
+(* stage (a): every struct all of whose pointers read null (arbitrary data, any size up to
+   65535 words): Canonicalize returns root pointer + data truncated of trailing zero words =
+   the specification's canonical form of the denoted value *)
+Theorem C18_canon_m_data_struct : forall c fx fuel m rl s v,
+  cfg_strict c = true -> all_cfixed fx -> msg_ok m -> wf_ptr m s ->
+  p_valid s = true -> p_kind s = KStruct -> DataSize (p_size s) mod 8 = 0 ->
+  den true m 0 [] s v ->
+  (exists ws vs, v = VStruct ws vs /\ forallb is_null vs = true) ->
+  exists bs, canonicalize c fx (S fuel) m rl s = (KOk bs, rl) /\ canon v = Some bs.
+Proof. exact canon_m_data_struct. Qed.
+Print Assumptions C18_canon_m_data_struct.
 
-Theorem C18_canon_m_value_preserved_if : canon_m_correct_statement ->
-  forall fuel c fx m rl s v bs r,
-    all_cfixed fx -> cfg_strict c = true -> msg_ok m -> wf_ptr m s ->
-    (p_valid s = true -> p_kind s = KStruct /\ DataSize (p_size s) mod 8 = 0) ->
-    den true m 0 [] s v -> good v ->
-    canonicalize c fx fuel m rl s = (KOk bs, r) ->
-    exists v', cdecode (S (vdepth (norm v))) bs = Some v' /\ value_eqs v' v = true /\ value_eq v' v = true.
-Proof. exact canon_m_value_preserved_if. Qed.
-Print Assumptions C18_canon_m_value_preserved_if.
+(* ---- the heap-level induction (allocation order = pre-order layout) ---- *)
+(* every allocation on Canonicalize's single segment appends zero bytes at its end *)
+Theorem C18_alloc_seg0 : forall data cap sz m' sid' addr, zlen data mod 8 = 0 -> 0 <= sz ->
+  alloc (seg0 data cap) 0 sz = Ok (m', sid', addr) ->
+  exists cap', m' = seg0 (data ++ repeat 0 (Z.to_nat (padToWord sz))) cap' /\ sid' = 0 /\ addr = zlen data.
+Proof. exact alloc_seg0. Qed.
+Print Assumptions C18_alloc_seg0.
+
+(* SetPtr / PointerList.Set of a pointer to an object of the same segment changes exactly one
+   word, and writes the specification's pointer word (every pointer kind) *)
+Theorem C18_write_ptr_seg0 : forall f data cap src rl a cp,
+  zlen data <= 4294967288 -> 0 <= a -> a mod 8 = 0 -> a + 8 <= zlen data -> cp_shape cp (zlen data) ->
+  write_ptr (S f) true (dstw data cap src rl) 0 a InDst cp false
+  = Ok (dstw (put_word data a (ptr_word cp a)) cap src rl).
+Proof. exact write_ptr_seg0. Qed.
+Print Assumptions C18_write_ptr_seg0.
+
+(* the inductive step for fillCanonicalStruct: if canonicalPtr (fuel f) appends the canonical
+   bytes of each child at the end of the segment and returns its specification pointer word
+   (Q_ptr), then fillCanonicalStruct (fuel f+1) writes the block -- data words, then the
+   children's pointer words -- and appends the children in pointer order, exactly enc_cells
+   (Q_fill); earlier bytes are untouched (set_slots) *)
+Theorem C18_fill_step : forall c fx m, cfg_strict c = true -> msg_ok m ->
+  forall f, Q_ptr c fx m f -> Q_fill c fx m (S f).
+Proof. exact fill_step. Qed.
+Print Assumptions C18_fill_step.
+
+(* groundwork for the heap-level induction: the pointer words the builder model writes (near
+   branch of place, tag of NewCompositeList) are the specification's pointer words *)
+Theorem C18_placed_struct_word : forall off sz raw, os_wf sz ->
+  rawStructPointer 0 sz = Some raw ->
+  withOffset raw off = struct_word off (DataSize sz / 8) (PointerCount sz).
+Proof. exact placed_struct_word. Qed.
+Print Assumptions C18_placed_struct_word.
+
+Theorem C18_placed_list_word : forall off lt n, 0 <= lt < 8 -> 0 <= n < 536870912 ->
+  withOffset (rawListPointer 0 lt n) off = list_word off lt n.
+Proof. exact placed_list_word. Qed.
+Print Assumptions C18_placed_list_word.
+
+(* [T2]: whenever Canonicalize (repaired, strict reader, well-formed source struct) returns bytes,
+   they are the specification's canonical form of the value the struct denotes -- every value:
+   structs, void / bit / primitive / pointer / struct lists, any depth and layout. *)
+Theorem C18_canon_m_correct : forall fuel c fx m rl s v bs rl',
+  all_cfixed fx -> cfg_strict c = true -> msg_ok m -> wf_ptr m s ->
+  (p_valid s = true -> p_kind s = KStruct /\ DataSize (p_size s) mod 8 = 0) ->
+  den true m 0 [] s v ->
+  canonicalize c fx fuel m rl s = (KOk bs, rl') -> canon v = Some bs.
+Proof. exact canon_m_correct. Qed.
+Print Assumptions C18_canon_m_correct.
+
+(* all outcomes: bytes = canonical form, never a panic; errors (limits, sizes, capabilities) and
+   fuel exhaustion are not constrained *)
+Theorem C18_canon_m_correct_full : forall fuel c fx m rl s v,
+  all_cfixed fx -> cfg_strict c = true -> msg_ok m -> wf_ptr m s ->
+  (p_valid s = true -> p_kind s = KStruct /\ DataSize (p_size s) mod 8 = 0) ->
+  den true m 0 [] s v -> 0 <= rl ->
+  forall r rl', canonicalize c fx fuel m rl s = (r, rl') ->
+  match r with
+  | KOk bs => canon v = Some bs
+  | KErr => True
+  | KPanic => False
+  | KFuel => True
+  end.
+Proof. exact canon_m_correct_full. Qed.
+Print Assumptions C18_canon_m_correct_full.
+
+(* capabilities: no canonical form (C18_canon_cap_none) and Canonicalize never returns bytes:
+   the error outcome (or fuel exhaustion, the excluded outcome) *)
+Theorem C18_canon_m_cap_error : forall fuel c fx m rl s v,
+  all_cfixed fx -> cfg_strict c = true -> msg_ok m -> wf_ptr m s ->
+  (p_valid s = true -> p_kind s = KStruct /\ DataSize (p_size s) mod 8 = 0) ->
+  den true m 0 [] s v -> 0 <= rl -> has_cap (norm v) = true ->
+  forall r rl', canonicalize c fx fuel m rl s = (r, rl') -> r = KErr \/ r = KFuel.
+Proof. exact canon_m_cap_error. Qed.
+Print Assumptions C18_canon_m_cap_error.
+
+Theorem C18_canon_m_bytes_nocap : forall fuel c fx m rl s v bs rl',
+  all_cfixed fx -> cfg_strict c = true -> msg_ok m -> wf_ptr m s ->
+  (p_valid s = true -> p_kind s = KStruct /\ DataSize (p_size s) mod 8 = 0) ->
+  den true m 0 [] s v ->
+  canonicalize c fx fuel m rl s = (KOk bs, rl') -> has_cap (norm v) = false.
+Proof. exact canon_m_bytes_nocap. Qed.
+Print Assumptions C18_canon_m_bytes_nocap.
+
+(* the invariant behind it, for every fuel: canonicalPtr / fillCanonicalStruct / canonicalList
+   append the canonical words of the object at the end of the single destination segment *)
+Theorem C18_Q_all : forall c fx m, cfg_strict c = true -> all_cfixed fx -> msg_ok m ->
+  forall f, Q_ptr c fx m f /\ Q_fill c fx m f /\ Q_list c fx m f.
+Proof. exact Q_all. Qed.
+Print Assumptions C18_Q_all.
+
+(* non-vacuity: a concrete message (struct with a byte list, a pointer list, a bit list with dirty
+   padding and a struct list) satisfies every hypothesis, Canonicalize returns bytes and they equal
+   canon of the denoted value; and a struct holding a capability gives the error outcome *)
+Theorem C18_canon_m_nonvacuous :
+  all_cfixed repaired /\ cfg_strict cfg0 = true /\ p_valid root_ex = true /\ p_kind root_ex = KStruct /\
+  DataSize (p_size root_ex) mod 8 = 0 /\
+  exists v bs rl', den true msg_ex 0 [] root_ex v /\ v <> VNull /\
+                   canonicalize cfg0 repaired 20 msg_ex 1000000 root_ex = (KOk bs, rl') /\ canon v = Some bs.
+Proof. exact canon_m_nonvacuous. Qed.
+Print Assumptions C18_canon_m_nonvacuous.
+
+Theorem C18_canon_m_cap_nonvacuous :
+  exists v, den true msg_cap 0 [] root_cap v /\ has_cap (norm v) = true /\
+            fst (canonicalize cfg0 repaired 20 msg_cap 1000000 root_cap) = KErr.
+Proof. exact canon_m_cap_nonvacuous. Qed.
+Print Assumptions C18_canon_m_cap_nonvacuous.
+
+(* the element size canonicalList computes for a struct list is the specification's -- the maxima of
+   the elements' truncated section sizes *)
+Theorem C18_elem_size_list : forall m, msg_ok m -> forall p vs,
+  wf_ptr m p -> p_valid p = true -> p_kind p = KList -> p_bit p = false ->
+  DataSize (p_size p) mod 8 = 0 -> zlen vs = p_len p ->
+  (forall i, 0 <= i < p_len p -> den true m 0 [] (elem_ptr p i) (nthv vs i)) ->
+  elem_size true true true m p (Z.to_nat (p_len p)) 0 (mkOS 0 0)
+  = Ok (mkOS (8 * Z.of_nat (max_len sdata (map norm vs))) (Z.of_nat (max_len sptrs (map norm vs)))).
+Proof. exact elem_size_list. Qed.
+Print Assumptions C18_elem_size_list.
+
+(* the three claims about Canonicalize itself, unconditional *)
+Theorem C18_canon_m_layout_independent : forall fuel c fx m1 rl1 s1 v1 m2 rl2 s2 v2 bs1 bs2 r1 r2,
+  all_cfixed fx -> cfg_strict c = true -> msg_ok m1 -> msg_ok m2 -> wf_ptr m1 s1 -> wf_ptr m2 s2 ->
+  (p_valid s1 = true -> p_kind s1 = KStruct /\ DataSize (p_size s1) mod 8 = 0) ->
+  (p_valid s2 = true -> p_kind s2 = KStruct /\ DataSize (p_size s2) mod 8 = 0) ->
+  den true m1 0 [] s1 v1 -> den true m2 0 [] s2 v2 ->
+  nocap v1 = true -> value_eqs v1 v2 = true ->
+  canonicalize c fx fuel m1 rl1 s1 = (KOk bs1, r1) -> canonicalize c fx fuel m2 rl2 s2 = (KOk bs2, r2) ->
+  bs1 = bs2.
+Proof. exact canon_m_layout_independent. Qed.
+Print Assumptions C18_canon_m_layout_independent.
+
+Theorem C18_canon_m_value_preserved : forall fuel c fx m rl s v bs r,
+  all_cfixed fx -> cfg_strict c = true -> msg_ok m -> wf_ptr m s ->
+  (p_valid s = true -> p_kind s = KStruct /\ DataSize (p_size s) mod 8 = 0) ->
+  den true m 0 [] s v -> good v ->
+  canonicalize c fx fuel m rl s = (KOk bs, r) ->
+  exists v', cdecode (S (vdepth (norm v))) bs = Some v' /\ value_eqs v' v = true /\ value_eq v' v = true.
+Proof. exact canon_m_value_preserved. Qed.
+Print Assumptions C18_canon_m_value_preserved.
+
+Theorem C18_canon_m_idempotent : forall fuel c fx m rl s v bs r m' rl' s' v' bs' r',
+  all_cfixed fx -> cfg_strict c = true -> msg_ok m -> msg_ok m' -> wf_ptr m s -> wf_ptr m' s' ->
+  (p_valid s = true -> p_kind s = KStruct /\ DataSize (p_size s) mod 8 = 0) ->
+  (p_valid s' = true -> p_kind s' = KStruct /\ DataSize (p_size s') mod 8 = 0) ->
+  den true m 0 [] s v -> nocap v = true ->
+  canonicalize c fx fuel m rl s = (KOk bs, r) ->
+  den true m' 0 [] s' v' -> value_eqs v v' = true ->
+  canonicalize c fx fuel m' rl' s' = (KOk bs', r') ->
+  bs' = bs.
+Proof. exact canon_m_idempotent. Qed.
+Print Assumptions C18_canon_m_idempotent.
 
 (* F04, the code as found: panic on a data-only struct list at the end of a cap == len
    segment, wrong bytes otherwise; the repaired model returns the specification's bytes *)
